@@ -38,11 +38,11 @@ def pids_for(files):
 
 
 jobs = []
-for d in sorted([d for d in glob.glob('/tmp/refac-%s-out/r[0-9]' % name) if os.path.isdir(d)]):
+for d in sorted([d for d in (glob.glob('/tmp/refac-%s-out/r[0-9]' % name) or glob.glob('/verif/seeded/harmless/%s-r[0-9]' % name)) if os.path.isdir(d)]):
     patch = os.path.join(d, 'patch.diff')
     files = re.findall(r'^\+\+\+ b/(\S+)', open(patch).read(), re.M)
     for pid in pids_for(files):
-        jobs.append((os.path.basename(d), patch, pid, files))
+        jobs.append((os.path.basename(d).split('-')[-1], patch, pid, files))
 
 
 def run(j):
@@ -59,8 +59,10 @@ def run(j):
 with ThreadPoolExecutor(J) as ex:
     res = list(ex.map(run, jobs))
 os.makedirs('/verif/seeded/harmless', exist_ok=True)
-for d in sorted([d for d in glob.glob('/tmp/refac-%s-out/r[0-9]' % name) if os.path.isdir(d)]):
-    dst = '/verif/seeded/harmless/%s-%s' % (name, os.path.basename(d))
+for d in sorted([d for d in (glob.glob('/tmp/refac-%s-out/r[0-9]' % name) or glob.glob('/verif/seeded/harmless/%s-r[0-9]' % name)) if os.path.isdir(d)]):
+    dst = '/verif/seeded/harmless/%s-%s' % (name, os.path.basename(d).split('-')[-1])
+    if os.path.abspath(d) == dst:
+        continue
     os.makedirs(dst, exist_ok=True)
     for f in ('patch.diff', 'meta.json'):
         if os.path.exists(os.path.join(d, f)):
